@@ -319,3 +319,66 @@ Definition empty_continuation {Q : Type} (keeps_query : bool) (q : Q) : option Q
 
 Definition code_empty_waits_for_ctx : bool := true.
 Definition code_empty_keeps_query : bool := true.
+
+(* ------------------------------------------------------------------ (E) a waiting reader with a filter (WHERE / RANGE) *)
+
+(* One reader over several partitions with a filter above them (pkg/cursor/fiterator.go over model.Mixer over the journal
+   iterators; with RANGE the iterators are /repo's partition.JIterator with the chunk selector's cached status of each chunk).
+   A source is what the reader has not read yet of one partition: the match flags of its unread records (true = the
+   filter accepts the record), the Mixer's eof flag for it (set when the source answered EOF; a flagged source is not asked
+   again until Release clears the flag) and the selector's cached status of its last chunk (fs_out: "no record of this
+   chunk is in the range", as computed when the chunk was last looked at).
+   The querier's loop: Get through the filter; at EOF with nothing read: WaitNewData = Release (of the filter, which must
+   reach the mixers and iterators below it), then sleep until some partition has records behind the reader's position
+   (any record, matching or not: part B), then Get again.
+   Two places where this can go wrong are variant flags (true = the code):
+     reaches:   the Release issued by WaitNewData reaches the sources below the filter (clears the eof flags);
+     refreshes: the selector recomputes the cached status of a chunk that has grown. *)
+Record fsrc := { fs_rest : list bool; fs_eof : bool; fs_out : bool }.
+
+Fixpoint scan (rest : list bool) : bool * list bool :=
+  match rest with
+  | [] => (false, [])
+  | true :: tl => (true, tl)
+  | false :: tl => scan tl
+  end.
+
+(* one source asked by the mixer *)
+Definition src_get (refreshes : bool) (f : fsrc) : bool * fsrc :=
+  if fs_eof f then (false, f)
+  else if fs_out f && negb refreshes
+  then (false, {| fs_rest := []; fs_eof := true; fs_out := true |})     (* stale "out": the position steps past the new records *)
+  else match scan (fs_rest f) with
+       | (true, tl) => (true, {| fs_rest := tl; fs_eof := false; fs_out := false |})
+       | (false, _) => (false, {| fs_rest := []; fs_eof := true; fs_out := fs_out f |})
+       end.
+
+(* Get of the filtered reader: the first source that has a matching record delivers it; the records the filter rejects on
+   the way are consumed *)
+Fixpoint get_all (refreshes : bool) (l : list fsrc) : bool * list fsrc :=
+  match l with
+  | [] => (false, [])
+  | f :: tl => let '(r, f') := src_get refreshes f in
+               if r then (true, f' :: tl)
+               else let '(r2, tl') := get_all refreshes tl in (r2, f' :: tl')
+  end.
+
+Definition clear_eof (f : fsrc) : fsrc := {| fs_rest := fs_rest f; fs_eof := false; fs_out := fs_out f |}.
+
+(* one round of the loop after a wake-up: Release, Get *)
+Definition fround (reaches refreshes : bool) (l : list fsrc) : bool * list fsrc :=
+  get_all refreshes (if reaches then map clear_eof l else l).
+
+(* WaitNewData would return at once: some partition has records behind the reader's position *)
+Definition fwoken (l : list fsrc) : bool := existsb (fun f => match fs_rest f with [] => false | _ => true end) l.
+(* matching records not read yet *)
+Definition unread_matching (l : list fsrc) : nat := fold_right (fun f a => count_occ Bool.bool_dec (fs_rest f) true + a) 0 l.
+
+Fixpoint frounds (reaches refreshes : bool) (n : nat) (l : list fsrc) : bool * list fsrc :=
+  match n with
+  | O => (false, l)
+  | S m => let '(r, l') := fround reaches refreshes l in if r then (true, l') else frounds reaches refreshes m l'
+  end.
+
+Definition code_release_reaches : bool := true.
+Definition code_status_refreshes : bool := true.
